@@ -18,11 +18,11 @@ RULE = ('cases = (table sizes incl. 0,1,2,254..257,300 and random; protocol vers
 ASSUMPTIONS = ['simulated device implements the firmware TOC protocol (V1 and V2) as documented',
                'platform / link-control requests are never lost (the library sends them without retry)']
 REQUIRED = ['mon.tables_at_connected', 'mon.lookup_entries', 'mon.stale_sessions', 'mon.lossy_retransmissions',
-            'mon.v1_cases', 'mon.over_255']
+            'mon.v1_cases', 'mon.over_255', 'mon.cache_reconnects', 'mon.early_param_packets']
 DESC_TIMEOUT = 900
 
 SIZES = [0, 1, 2, 3, 254, 255, 256, 257, 300]
-POLICIES = ['inorder', 'dup', 'dupdelay', 'delay', 'lossy', 'stale']
+POLICIES = ['inorder', 'dup', 'dupdelay', 'delay', 'lossy', 'stale', 'cachenotify', 'notify']
 
 
 def cases(tier, seed):
@@ -40,7 +40,7 @@ def cases(tier, seed):
         for proto in (3, 10):
             if proto < 4 and n > 255:
                 continue
-            for pol in (POLICIES if n in (0, 2, 255, 257) else ['inorder', 'dupdelay', 'stale']):
+            for pol in (POLICIES if n in (0, 2, 255, 257) else ['inorder', 'dupdelay', 'stale', 'cachenotify']):
                 add(n, SIZES[(SIZES.index(n) * 5 + 3) % len(SIZES)] if proto >= 4 else min(n + 1, 255), proto, pol,
                     latin=(n % 2 == 1))
     nrand = 150 if tier == 'quick' else 3000
@@ -65,7 +65,7 @@ def run(desc, ctx):
     spec = simlink.LinkSpec(dev, needs_resending=(pol == 'lossy'), latency=0.001)
     uri = 'sim://c03'
     simlink.SIMS[uri] = spec
-    if pol not in ('stale', 'inorder'):
+    if pol not in ('stale', 'inorder', 'cachenotify', 'notify'):
         spec.reply_policy = gen.make_reply_policy(pol, desc['seed'], p=0.3 if pol != 'lossy' else 0.15)
     if pol == 'lossy':
         spec.tx_filter = gen.make_tx_filter(desc['seed'], p=0.15)
@@ -73,14 +73,44 @@ def run(desc, ctx):
     absent = [('nope', 'x'), (dev.log_toc[0][0], 'zz~') if dev.log_toc else ('a', 'b')]
     obs = {'connected': [], 'lookups': 0}
 
+    cache_dir = None
+    if pol == 'cachenotify':
+        import tempfile
+        cache_dir = tempfile.mkdtemp(prefix='vf_c03_')
+
+    def early_param_packets(link):
+        # what a device may send at any time on the param port: a value-changed notification (V2) or the late
+        # reply to a read of the previous session
+        n = 0
+        for _ in range(rnd.randint(1, 3)):
+            if not dev.params:
+                break
+            i = rnd.randrange(len(dev.params))
+            if dev.proto >= 4 and rnd.random() < 0.7:
+                h, d = dev.value_updated_packet(i)
+            elif dev.proto >= 4:
+                import struct as _st
+                h, d = simcf.hdr(2, 1), _st.pack('<H', i) + b'\0' + dev.param_value_bytes(i)
+            else:
+                h, d = simcf.hdr(2, 1), bytes([i]) + dev.param_value_bytes(i)
+            link.inject(h, d, rnd.choice((0.0, 0.0005, 0.002, 0.004, 0.008)))
+            n += 1
+        obs['early'] = obs.get('early', 0) + n
+
     def fn(s):
         dev.now = lambda: s.now
-        cf = Crazyflie()
+        cf = Crazyflie(rw_cache=cache_dir)
         done = ds.Event()
         session = {'n': 1}
 
-        def on_connected(uri_):
-            lt, pt = cf.log.toc, cf.param.toc
+        def on_connected_factory(cfx):
+            def cb(uri_):
+                return on_connected(uri_, cfx)
+            return cb
+
+        def on_connected(uri_, cfx=None):
+            cfx = cfx or cf
+            lt, pt = cfx.log.toc, cfx.param.toc
             snap = (session['n'], oracles.snapshot_toc(lt), oracles.snapshot_toc(pt))
             issues = []
             if lt is not None:
@@ -114,7 +144,25 @@ def run(desc, ctx):
             obs['connected'].clear()
             session['n'] = 2
             spec.carry = [(rnd.uniform(0.0, 0.003), h, d) for (h, d) in left]
+        if pol == 'cachenotify':
+            # first connection fills the cache; the second one (same object or a fresh one sharing the cache) is
+            # served from it while the device also sends parameter packets of its own
+            cf.open_link(uri)
+            done.wait(120.0 + (desc['nlog'] + desc['nparam']) * 2.0)
+            s.sleep(0.3)
+            cf.close_link()
+            s.sleep(0.2)
+            done.clear()
+            obs['connected'].clear()
+            session['n'] = 2
+            if rnd.random() < 0.5:
+                cf = Crazyflie(rw_cache=cache_dir)
+                cf.connected.add_callback(on_connected_factory(cf))
+                cf.connection_failed.add_callback(lambda *a: done.set())
+            obs['cf2'] = cf
         cf.open_link(uri)
+        if pol in ('cachenotify', 'notify') and cf.link is not None:
+            early_param_packets(cf.link)
         if pol == 'stale' and cf.link is not None:
             for (dl, h, d) in spec.carry:
                 cf.link.inject(h, d, dl)
@@ -123,7 +171,12 @@ def run(desc, ctx):
         cf.close_link()
         return None
 
-    _, abort, s = harness.sched_case(fn, seed=desc['seed'], policy=desc['sched'], horizon=3000.0)
+    try:
+        _, abort, s = harness.sched_case(fn, seed=desc['seed'], policy=desc['sched'], horizon=3000.0)
+    finally:
+        if cache_dir:
+            import shutil
+            shutil.rmtree(cache_dir, ignore_errors=True)
     ctx.evals()
     rp = dict(desc)
     if abort is not None:
@@ -148,6 +201,10 @@ def run(desc, ctx):
     if pol == 'stale':
         ctx.count('mon.stale_sessions')
         ctx.count('mon.stale_packets_delivered', obs.get('stale_left', 0))
+    if pol == 'cachenotify':
+        ctx.count('mon.cache_reconnects')
+    if pol in ('cachenotify', 'notify'):
+        ctx.count('mon.early_param_packets', obs.get('early', 0))
     if pol == 'lossy':
         ctx.count('mon.lossy_retransmissions', max(0, len(spec.tx) - len({(t[2], t[3]) for t in spec.tx})))
     if desc['proto'] < 4:
